@@ -55,6 +55,7 @@ type pipeLog struct {
 	// schedule gate: when sched is set, a goroutine arriving at a gated hook waits until the next
 	// entry of the schedule names its (site, channel); if the run cannot follow, it diverges and all
 	// gates open
+	muted    bool // an earlier life of the object is running: its hook events are not part of the judged run
 	sched    []schedEv
 	si       int
 	diverged bool
@@ -83,6 +84,10 @@ func bufAddr(b []byte) uintptr {
 func (p *pipeLog) hook(site string, ch interface{}, buf []byte) {
 	var yield int
 	p.mu.Lock()
+	if p.muted {
+		p.mu.Unlock()
+		return
+	}
 	cn, bn := 0, 0
 	if ch != nil {
 		ptr := reflect.ValueOf(ch).Pointer()
@@ -156,6 +161,20 @@ func (p *pipeLog) pool(op string, buf []byte) {
 	if p.poison {
 		switch op {
 		case "put":
+			if n, was := p.poisoned[a]; was && n == len(full) && n > 0 {
+				// the same buffer is put twice without a Get in between (it would then be handed out twice):
+				// it still holds nothing but the poison of the first Put
+				all := true
+				for i := 0; i < n; i++ {
+					if full[i] != poisonByte {
+						all = false
+						break
+					}
+				}
+				if all {
+					p.badPut = append(p.badPut, fmt.Sprintf("buffer %d was returned to the pool twice", bn))
+				}
+			}
 			p.poisoned[a] = len(full)
 		case "get":
 			if n, was := p.poisoned[a]; was {
@@ -282,6 +301,20 @@ func pipeRun(args []string) error {
 				frame = applyOps(sink.bytes(), c.Ops)
 				currentLog.Store(pl)
 				cfg := c.Cfg
+				if cfg.PreBytes > 0 {
+					// the earlier life: sensors on (pool poisoning), protocol events off until its goroutines are gone
+					pl.mu.Lock()
+					pl.muted = true
+					pl.mu.Unlock()
+					afterPreLife = func() {
+						for i := 0; i < 200 && lz4Goroutines() > base; i++ {
+							time.Sleep(10 * time.Millisecond)
+						}
+						pl.mu.Lock()
+						pl.muted = false
+						pl.mu.Unlock()
+					}
+				}
 				ob := runReaderDelay(frame, cfg, *wd, 1<<28, time.Duration(c.SlowIO)*time.Microsecond)
 				e["outcome"], e["err"] = ob.Outcome, ob.Err
 				e["same"] = bytes.Equal(ob.Delivered, input)
